@@ -905,6 +905,12 @@ def assemble_fn_(spec, bundle, out, canary=False):
             # match on masked text so that comments cannot satisfy an anchor
             if re.search(rx, mask[a:b]):
                 hits.append((a, b))
+        if len(hits) == 0 and kind in ("proof-before", "proof-after"):
+            # a proof hint is scaffolding: when its anchor line is gone the hint is dropped and the contract is checked
+            # without it (it then verifies, or a named obligation fails); ghost bindings and contract anchors stay fatal
+            out.dropped.append("%s: proof hint anchored at /%s/ dropped on this tree (anchor line not found)" % (where, rx))
+            out.clauses.pop(cid, None)
+            continue
         if len(hits) != 1:
             raise ExtractError("%s: anchor /%s/ matches %d lines" % (where, rx, len(hits)))
         a, b = hits[0]
@@ -1166,6 +1172,12 @@ def assemble_region(spec, bundle, out, sf, it, canary):
             b = sf.line_starts[ln] - 1 if ln < len(sf.line_starts) else len(src)
             if re.search(rx, mask[a:b]):
                 hits.append((a, b))
+        if len(hits) == 0 and kind in ("proof-before", "proof-after"):
+            # a proof hint is scaffolding: when its anchor line is gone the hint is dropped and the contract is checked
+            # without it (it then verifies, or a named obligation fails); ghost bindings and contract anchors stay fatal
+            out.dropped.append("%s: proof hint anchored at /%s/ dropped on this tree (anchor line not found)" % (where, rx))
+            out.clauses.pop(cid, None)
+            continue
         if len(hits) != 1:
             raise ExtractError("%s: anchor /%s/ matches %d lines" % (where, rx, len(hits)))
         a, b = hits[0]
